@@ -82,3 +82,45 @@ def attr_stores(node: ast.AST) -> List[Tuple[ast.Attribute, ast.AST]]:
 
 def const_int(prog: Program, module: str, name: str) -> Any:
     return prog.const(module, name)
+
+
+# ------------------------------------------------------------ FD conveniences
+from sa.cf import CFG, Node, cfg_of  # noqa: E402
+from sa import fd as _fd  # noqa: E402
+from sa.pm import call_name  # noqa: E402
+
+
+def call_labeler(names: Any) -> Any:
+    """Effect function: label every call whose callee's last name is in `names`
+    (dict name->label or iterable of names)."""
+    table = names if isinstance(names, dict) else {n: n for n in names}
+
+    def eff(node: Node, evl: Any) -> List[Any]:
+        out = []
+        for c in node.calls():
+            nm = call_name(c)
+            if nm in table:
+                out.append(table[nm])
+        return out
+
+    return eff
+
+
+def traces(ctx: Any, f: FuncInfo, atoms: Dict[str, Any], eff: Any, **kw: Any) -> Tuple[Any, List[str]]:
+    return _fd.run_paths(ctx.prog, f.module, cfg_of(f.node), atoms, eff, **kw)
+
+
+def strip_ret(trace: Tuple[Any, ...]) -> Tuple[Any, ...]:
+    return tuple(x for x in trace if not (isinstance(x, tuple) and x and x[0] in ('ret', 'raise')))
+
+
+def node_of_call(cfg: CFG, pred: Any) -> List[Node]:
+    return [n for n in cfg.nodes if any(pred(c) for c in n.calls())]
+
+
+def receiver_classes(ctx: Any, f: FuncInfo, recv: ast.AST) -> List[str]:
+    """Full names of classes the receiver expression may be an instance of."""
+    if isinstance(recv, ast.Name) and f.cls is not None and f.params and recv.id == f.params[0]:
+        return [f.cls.full]
+    td = ctx.ty.type_of(f.module.name, recv)
+    return ctx.ty.inst_names(td) or ['?']
